@@ -59,9 +59,26 @@ def r1(ctx):
     ctx.note(f"{find.key}: code-base parameter `{cbp}`")
     # uses of the code base inside find
     uses = [n for n in walk_no_nested(find.node) if isinstance(n, ast.Name) and n.id == cbp and isinstance(n.ctx, ast.Load)]
+
+    def seeds_only(fn, param, n, depth=0):
+        """the use `n` of the code base in `fn` only seeds the parse list (possibly inside a helper it is handed to)"""
+        st = stmt_of(fn, n)
+        if isinstance(st, ast.Assign) and u(st.value) in (f"set({param})", f"list({param})", f"sorted({param})"):
+            return True
+        # handed on, as it is, to a helper of the same module: the helper's use of it is judged the same way
+        for c in ast.walk(st):
+            if isinstance(c, ast.Call) and isinstance(c.func, ast.Name) and any(a is n for a in c.args) and depth < 2:
+                h = fn.module.functions.get(c.func.id)
+                if h is None:
+                    return False
+                hp = h.params[[a is n for a in c.args].index(True)] if len(h.params) >= len(c.args) else None
+                hu = [x for x in walk_no_nested(h.node) if isinstance(x, ast.Name) and x.id == hp and isinstance(x.ctx, ast.Load)]
+                return hp is not None and bool(hu) and all(seeds_only(h, hp, x, depth + 1) for x in hu)
+        return False
+
     for n in uses:
         st = stmt_of(find, n)
-        ok = isinstance(st, ast.Assign) and u(st.value) in (f"set({cbp})", f"list({cbp})", f"sorted({cbp})")
+        ok = seeds_only(find, cbp, n)
         ctx.check(ok, f"finder:find:codebase-use:{u(st)[:60]}", f"`{u(st)[:80]}`: in find() the code base may only seed the set of files to parse; testing membership or iterating it elsewhere makes exclusion change what is preprocessed", find.loc(st))
     ctx.check(len(uses) >= 1, "finder:find:codebase-seeds-parse-list", "code base is not used to seed the parse list", find.loc())
     # functions reachable from find: no membership test against a CodeBase, no use of the root directory in a condition
